@@ -543,4 +543,21 @@ instance : ValOps Rat where
     | "Min" => if x < y then x else y
     | _ => 0
 
+/-- exact complex rationals `(re, im)`: heterodyne outcomes; `re`, `im`, `conjugate`, `I` and `|·|²`
+are exact (`Abs`, `arg`, `exp` are not rational — junk 0 here, folded numerically by the harness) -/
+instance : ValOps (Rat × Rat) where
+  ofRat := fun q => (q, 0)
+  add := fun x y => (x.1 + y.1, x.2 + y.2)
+  mul := fun x y => (x.1 * y.1 - x.2 * y.2, x.1 * y.2 + x.2 * y.1)
+  neg := fun x => (-x.1, -x.2)
+  pow := fun x y => if y = (2, 0) then (x.1 * x.1 - x.2 * x.2, 2 * x.1 * x.2) else (0, 0)
+  fn1 := fun f x => match f with
+    | "re" => (x.1, 0)
+    | "im" => (x.2, 0)
+    | "conjugate" => (x.1, -x.2)
+    | "I" => (-x.2, x.1)
+    | "abs2" => (x.1 * x.1 + x.2 * x.2, 0)
+    | _ => (0, 0)
+  fn2 := fun _ _ _ => (0, 0)
+
 end SFV.Param
